@@ -650,8 +650,27 @@ func (m *Monitors) checkTasks(prev *vh.Snapshot, bi *BatchInfo, next *vh.Snapsho
 		switch {
 		case expectedReg[id]:
 			if t1.State != 1 {
-				if typ == "notify" && t1.State == 8 && !m.takeSend(id, t1.Counter, func(sm *SentMsg) bool { return true }) {
+				// a task born from a registration is born init. Born finished: the known defect if a request that lost
+				// the completion race on that promise (UpdatePromise with 0 rows) ran its CompleteTasks in this same
+				// batch; otherwise the completing transaction itself finished the task it had just created
+				loser := false
+				for _, c := range cmds {
+					if c.cmd.Kind == t_aio.UpdatePromise && c.cmd.UpdatePromise.Id == t1.Root && c.res != nil && rowsOf(c.res) == 0 {
+						loser = true
+					}
+				}
+				if typ == "notify" && t1.State == 8 && loser && !m.takeSend(id, t1.Counter, func(sm *SentMsg) bool { return true }) {
 					m.violate("C08", "row:notify-finished-by-late-completion", fmt.Sprintf("notification task %s was born and finished in one batch without a hand-off attempt", id))
+				} else if rootDone := func() bool {
+					// a resume task belongs to another root: if that root completes in this very batch its tasks are finished with it
+					for _, c := range cmds {
+						if c.cmd.Kind == t_aio.UpdatePromise && c.cmd.UpdatePromise.Id == t1.Root && c.res != nil && rowsOf(c.res) == 1 {
+							return typ != "notify"
+						}
+					}
+					return false
+				}(); !loser && !rootDone {
+					m.violate("C08,C05", "birth:registration-task-born-in-state", fmt.Sprintf("task %s, born from a registration when %s completed, is born in state %d instead of init", id, t1.Root, t1.State))
 				}
 			}
 		case strings.HasPrefix(id, "__invoke:"):
